@@ -127,7 +127,7 @@ fn limit_class(v: &[f64; 10]) -> &'static str {
             return "beyond-2^32";
         }
     }
-    let t = time_total(v).abs();
+    let t = time_total(v).saturating_abs();
     if (t - MAX_TIME_NS_EXCL).abs() <= 4 * NS_SEC {
         "near-2^53s"
     } else if t >= MAX_TIME_NS_EXCL {
